@@ -97,7 +97,7 @@ PROPS['C16'] = {
     'level_note': 'exploration + single-fault sweep',
 }
 
-HOOK_COMMITS = []
+HOOK_COMMITS = ['e9e41482']   # /repo: verif hook H1 (GRAPHITE2_VERIF): rule-loop counter in Pass::runGraphite + SlotMap::verifMaxSize()
 
 _PURE = 'pure function of its explicit arguments: no I/O, callback, shared state, history, schedule or clock in its statement, so there is nothing for a simulator to schedule or fault (DESIGN.md section 8)'
 NOT_APPLICABLE = {
